@@ -161,6 +161,8 @@ for m in sel:
                 mm = re.search(r'key: (.*)', so)
                 key = mm.group(1)[:200] if mm else ''
             d['runs'].append({'check': ck, 'rc': rc, 'secs': round(time.time() - t0, 1), 'key': key})
+            if rc == 2:
+                d['harness_error'] = ck  # no verdict from this check: looked at by hand
             if rc == 1 or rc == 124:
                 d['killed_by'] = ck
                 d['key'] = key if rc == 1 else 'timeout'
@@ -171,5 +173,5 @@ for m in sel:
         killed += 1
     else:
         survived += 1
-        print('SURVIVED id=%d %s:%d [%s] %s :: %s | %s' % (d['id'], rel, d['line'], d['op'], d['func'], d['desc'], d['text'][:100].replace('\n', ' ')), flush=True)
+        print('SURVIVED%s id=%d %s:%d [%s] %s :: %s | %s' % (' (harness error in %s)' % d['harness_error'] if d.get('harness_error') else '', d['id'], rel, d['line'], d['op'], d['func'], d['desc'], d['text'][:100].replace('\n', ' ')), flush=True)
 print('SUMMARY %s: mutants=%d killed=%d survived=%d (dropped as not compiling: %d)' % (name, killed + survived, killed, survived, len(drop)))
